@@ -286,6 +286,23 @@ impl Property for C03 {
             }
             sc.world.stubs.push(s);
         }
+        // the same node id at two addresses (a node that moved, or an impostor): one of them answers
+        // with a token, the other is silent or answers without being asked
+        if rng.chance(1, 3) && n >= 2 {
+            let twin_of = rng.below(n as u64) as usize;
+            let mut twin = StubCfg::honest(stub_addr(v6, 300), sc.world.stubs[twin_of].id);
+            match rng.below(3) {
+                0 => twin.answer = Answer::Never,
+                1 => twin.get_peers_answer = Some(Answer::Never),
+                _ => {}
+            }
+            if rng.chance(1, 2) {
+                // and the original goes silent for get_peers instead
+                sc.world.stubs[twin_of].get_peers_answer = Some(Answer::Never);
+            }
+            sc.world.stubs.push(twin);
+            sc.params.insert("twin".into(), 1);
+        }
         for r in 0..n_real {
             let mut real = default_real(v6, r, &mut rng);
             real.read_only = rng.chance(1, 2);
@@ -402,6 +419,9 @@ impl Property for C03 {
         if searches.len() > 1 {
             v.hit("concurrent_searches");
         }
+        if sc.param("twin") != 0 {
+            v.hit("same_id_at_two_addresses");
+        }
         if run.stats.get("fault_forge").copied().unwrap_or(0) > 0 {
             v.hit("forged_responses");
         }
@@ -410,12 +430,12 @@ impl Property for C03 {
         v
     }
     fn rule(&self) -> &'static str {
-        "1..2 real nodes, each with 1..3 concurrent searches for different info-hashes (with/without announce), 2..25 stubs (honest, silent, late around 1.5 s, wrong-id, garbage, crashing and restarting, naming the victim / duplicates / unreachable nodes), an adversary forging 0..25 responses from the wire tap (id of this search, of a concurrent search, of refresh/bootstrap, replayed, random/short/long/high-prefix ids; from the queried address or elsewhere), and every message fault kind (drop, delay up to 5 s, duplicate, reorder, corrupt, send errors, stalls) at swarm-drawn rates, plus a single-fault sweep on fault-free base runs. non-trivial = a search sent at least one query; distinct = distinct order digests"
+        "1..2 real nodes, each with 1..3 concurrent searches for different info-hashes (with/without announce), 2..25 stubs (honest, silent, late around 1.5 s, wrong-id, garbage, crashing and restarting, naming the victim / duplicates / unreachable nodes; in one run of three one node id lives at two addresses of which one may be silent), an adversary forging 0..25 responses from the wire tap (id of this search, of a concurrent search, of refresh/bootstrap, replayed, random/short/long/high-prefix ids; from the queried address or elsewhere), and every message fault kind (drop, delay up to 5 s, duplicate, reorder, corrupt, send errors, stalls) at swarm-drawn rates, plus a single-fault sweep on fault-free base runs. non-trivial = a search sent at least one query; distinct = distinct order digests"
     }
     fn assumptions(&self) -> Vec<&'static str> {
         vec!["responses arriving within +-1 ms of a 1.5 s deadline or of the close may go either way", "forged values are globally unique addresses, so every yielded item is attributable"]
     }
     fn required_reach(&self) -> Vec<&'static str> {
-        vec!["items_yielded", "announces_sent", "response_that_must_be_ignored", "edge_response", "concurrent_searches", "forged_responses"]
+        vec!["items_yielded", "announces_sent", "response_that_must_be_ignored", "edge_response", "concurrent_searches", "forged_responses", "same_id_at_two_addresses"]
     }
 }
